@@ -47,6 +47,7 @@
 #include "stir/Bin.h"
 #include <typeinfo>
 #include <set>
+#include <map>
 #include <algorithm>
 
 using namespace vf;
@@ -373,6 +374,64 @@ complete_list(const ProjDataInfoCylindrical::RingNumPairs& rp, const SegRingDiff
   return rp.size() == want;
 }
 
+
+//! The ring pairs a (segment, axial position) reports as contributing, against the harness's own statement of which they are:
+//! every ring pair of the scanner whose ring difference lies in the segment's range and whose axial midpoint (z of the two rings from
+//! the harness's cylinder formula) is the bin's m.  (Round 4: the pair averages of clause (2) were taken over the list STIR reports, so a
+//! list that had lost pairs at the axial edge of a compressed segment still "agreed with its detectors".)  Cylindrical geometry only
+//! (uniform ring positions); both directions: nothing listed that does not belong, nothing that belongs missing.
+template <class PDI>
+Result
+check_contributing_ring_pairs(const PDI& p, const CylGeo& g)
+{
+  std::map<std::pair<int, int>, std::set<std::pair<int, int>>> expected;
+  const int tang0 = std::min(std::max(0, p.get_min_tangential_pos_num()), p.get_max_tangential_pos_num());
+  for (int seg = p.get_min_segment_num(); seg <= p.get_max_segment_num(); ++seg)
+    {
+      const int amin = p.get_min_axial_pos_num(seg), amax = p.get_max_axial_pos_num(seg);
+      if (amax < amin)
+        continue;
+      const double ax_sampling = compressed(p, seg) ? g.spacing / 2 : g.spacing;
+      const double m0 = p.get_m(Bin(seg, p.get_min_view_num(), amin, tang0));
+      const int dlo = p.get_min_ring_difference(seg), dhi = p.get_max_ring_difference(seg);
+      for (int r1 = 0; r1 < g.rings; ++r1)
+        for (int d = dlo; d <= dhi; ++d)
+          {
+            const int r2 = r1 + d;
+            if (r2 < 0 || r2 >= g.rings)
+              continue;
+            const double mid = (g.z[r1] + g.z[r2]) / 2;
+            const int ax = amin + int(std::lround((mid - m0) / ax_sampling));
+            if (ax < amin || ax > amax)
+              continue; // midpoint outside the axial range of the data (reduced ranges)
+            const double m = p.get_m(Bin(seg, p.get_min_view_num(), ax, tang0));
+            if (std::fabs(m - mid) > 1e-3 * ax_sampling)
+              continue; // no axial position has this midpoint (span 1: the other parity)
+            expected[std::make_pair(seg, ax)].insert(std::make_pair(r1, r2));
+          }
+    }
+  long npairs = 0;
+  for (int seg = p.get_min_segment_num(); seg <= p.get_max_segment_num(); ++seg)
+    for (int ax = p.get_min_axial_pos_num(seg); ax <= p.get_max_axial_pos_num(seg); ++ax)
+      {
+        const auto& rp = p.get_all_ring_pairs_for_segment_axial_pos_num(seg, ax);
+        std::set<std::pair<int, int>> got;
+        for (auto& pr : rp)
+          got.insert(std::make_pair(pr.first, pr.second));
+        const auto& want = expected[std::make_pair(seg, ax)];
+        npairs += long(want.size());
+        for (auto& w : want)
+          VF_CHECK(got.count(w), "ring pair (", w.first, ",", w.second, ") has a ring difference of segment ", seg, " (", p.get_min_ring_difference(seg), "..",
+                   p.get_max_ring_difference(seg), ") and its axial midpoint is m of axial position ", ax, ", but it is not among the ", rp.size(),
+                   " ring pairs the bin reports as contributing");
+        for (auto& gp : got)
+          VF_CHECK(want.count(gp), "ring pair (", gp.first, ",", gp.second, ") is listed for segment ", seg, " axial position ", ax,
+                   " but its ring difference / axial midpoint do not belong to that bin");
+      }
+  stats().count("ring pairs compared with own Michelogram", npairs);
+  return Result::pass();
+}
+
 Result
 check_noarc(const ProjDataInfoCylindricalNoArcCorr& p, const json& c)
 {
@@ -394,6 +453,7 @@ check_noarc(const ProjDataInfoCylindricalNoArcCorr& p, const json& c)
   // geometry constants the class reports against the harness's own
   VF_CHECK(std::fabs(p.get_ring_radius() - g.R) <= 1e-6 * g.R, "ring radius ", p.get_ring_radius(), " != inner radius + DOI ", g.R);
   VF_CHECK(std::fabs(p.get_angular_increment() - PI / g.N) <= 1e-6 * PI / g.N, "angular increment ", p.get_angular_increment(), " != pi/N");
+  VF_TRY(check_contributing_ring_pairs(p, g));
 
   std::vector<DetectionPositionPair<>> dps;
   long nbins = 0, n_incomplete = 0;
@@ -538,6 +598,7 @@ check_arc(const ProjDataInfoCylindricalArcCorr& p, const json& c)
   Tol tol;
   tol.s_abs = 1e-3 * bin;
   VF_CHECK(std::fabs(p.get_ring_radius() - g.R) <= 1e-6 * g.R, "ring radius ", p.get_ring_radius(), " != inner radius + DOI ", g.R);
+  VF_TRY(check_contributing_ring_pairs(p, g));
   long nbins = 0, n_incomplete = 0;
   for (int seg = p.get_min_segment_num(); seg <= p.get_max_segment_num(); ++seg)
     {
